@@ -86,12 +86,29 @@ def build(sh):
     return obj
 
 
+class StaleView(Exception):
+    """the ctrlpts / weights views of a rational object disagree with its weighted control points"""
+
+
 def snapshot(obj):
-    """definition fields of a geomdl object as plain lists (weighted points when rational)"""
+    """definition fields of a geomdl object as plain lists (weighted points when rational).  For rational objects the Cartesian
+    ctrlpts and the weights views are read as well (a user's code does; this also fills their caches before an operation) and
+    must be the separation of ctrlptsw - StaleView otherwise (seen by the oracles as a failed operation)."""
     pd = obj.pdimension
     rat = bool(obj.rational)
     P = obj.ctrlptsw if rat else obj.ctrlpts
     P = [[float(c) for c in pt] for pt in P]
+    if rat:
+        cp, w = obj.ctrlpts, obj.weights
+        ok = len(cp) == len(P) and len(w) == len(P)
+        for i in range(len(P)):
+            if not ok:
+                break
+            wi = P[i][-1]
+            ok = abs(w[i] - wi) <= 1e-9 * max(1.0, abs(wi)) and len(cp[i]) == len(P[i]) - 1 and all(
+                abs(cp[i][d] * wi - P[i][d]) <= 1e-9 * max(1.0, abs(P[i][d])) for d in range(len(cp[i])))
+        if not ok:
+            raise StaleView("%d ctrlpts / %d weights for %d weighted control points, or values that are not their separation" % (len(cp), len(w), len(P)))
     if pd == 1:
         deg, kv, size = [obj.degree], [list(obj.knotvector)], [obj.ctrlpts_size]
     elif pd == 2:
